@@ -487,6 +487,23 @@ class C20(Spec):
             q.unit_override = {'tools/key2jwk.c': k2j}
             qs.append(q)
         names = ['short', 'short_detached', 'long', 'long_detached']
+        # jwt-generate: every documented option in every spelling
+        gen_gb = bld.goto_unit('tools/jwt-generate.c', extra=['-Dmain=tool_main'], suffix='tool')
+        gopts = usage_options(os.path.join(REPO, 'tools/jwt-generate.c'))
+        write_opts_header(os.path.join(bld.gen, 'c20_generate_opts.h'), gopts)
+        for wi, (sc, ln, ha) in enumerate(gopts):
+            for sp in range(4):
+                if not ha and sp in (1, 3):
+                    continue
+                q = Query('C20.opts.generate.%s.%s' % (ln, names[sp]), 'tool_generate.c',
+                          ['tools/jwt-generate.c', 'libjwt/jwt.c', 'libjwt/jwt-memory.c', 'libjwt/base64.c'], models=TOOL_MODELS,
+                          defines=['VF_FREE_NOOP', 'WHICH=%d' % wi, 'SPELLING=%d' % sp], unwind=34, checks='verdict', budget=300,
+                          bounds={'option': '-%s/--%s%s' % (sc, ln, '=ARG' if ha else ''), 'spelling': names[sp]})
+                q.includes = [bld.gen]
+                q.unwindset = {'tool_main.%d' % k: 17 for k in range(4)}
+                q.unit_override = {'tools/jwt-generate.c': gen_gb}
+                q.mem_expect = 1
+                qs.append(q)
         for wi, (sc, ln, ha) in enumerate(opts):
             for sp in range(4):
                 if not ha and sp in (1, 3):
